@@ -235,7 +235,9 @@ class NetworkGraph(AbstractBaseIR):
                         else:
                             for i, (edge, delay, node) in enumerate(zip(scalar_edges, delays, nodes)):
                                 if not delay:
-                                    continue  # undelayed edge: keeps reading the source variable itself
+                                    # undelayed edge: keeps reading the source variable itself, through its own source index
+                                    self.edges[edge]['source_idx'] = list(node)
+                                    continue
                                 self._add_edge_buffer(node_name, op_name, var_name, edges=[edge], delays=[delay],
                                                       nodes=[node], dde_approx=dde_approx, buffer_id=f"_out{i}")
 
